@@ -1,6 +1,6 @@
 #!/usr/bin/env python3
 """Regenerates /verif/MANIFEST.json from the plugins present under props/."""
-import json, os, sys
+import subprocess, json, os, sys
 sys.path.insert(0, os.path.dirname(os.path.abspath(__file__)))
 import vlib
 
@@ -16,7 +16,9 @@ def main():
             na.append({'property_id': pid, 'reason': NA_REASON.get(pid, 'no check registered yet in this revision (work in progress, see DESIGN.md §6 %s); not a claim that the technique cannot apply' % pid)})
             continue
         P = vlib.load_plugin(pid)
-        targets += list(P.LEAN_MODULES) + [P.EXE]
+        # only modules whose source is tracked by git: a builder's uncommitted work must never be named by the manifest
+        tracked = set(subprocess.run(['git', '-C', '/verif', 'ls-files', 'lean'], capture_output=True, text=True).stdout.split())
+        targets += [m for m in P.LEAN_MODULES if 'lean/' + m.replace('.', '/') + '.lean' in tracked] + [P.EXE]
         checks.append({
             'property_id': pid,
             'quick_cmd': './check %s --tier quick' % pid,
